@@ -152,6 +152,30 @@ example (F : FloatSem) (san : Bytes → Bytes) (now : Int) :
     (typedPath F san now [0x83, 0xa1, 0x6d, 0xa1, 0x78, 0xa1, 0x7a, 0x05, 0xa7, 0x63, 0x6f, 0x6c, 0x75,
       0x6d, 0x6e, 0x73, 0x82, 0xa1, 0x61, 0xc0, 0xa1, 0x61, 0x91, 0x01]).isSome = true := by rfl
 
+/-! ## the WAL record (what the rows are rebuilt from after a crash) -/
+
+/-- `Write` hands both record kinds to functions that log the raw client bytes (regenerated facts:
+`typedWriteFn`, `genericWriteFn`, whether `r.RawPayload` is passed on and logged by
+`AppendRawWithMeta`, and that both decoders put the request body into `RawPayload`). -/
+theorem C02_write_dispatch :
+    typedWriteFn = "writeTypedColumnarRaw" ∧ genericWriteFn = "writeColumnar" ∧
+    typedWriteLogsRaw = true ∧ genericWriteLogsRaw = true := by decide
+
+/-- **Same WAL record.** On a typed hit the fast path logs exactly the bytes the generic path logs:
+the request body. Recovery is a function of the WAL bytes alone, so the rows (and null positions)
+rebuilt after a crash are the same with the fast path on or off. -/
+theorem C02_wal_entry_same (F : FloatSem) (san : Bytes → Bytes) (now : Int) (b : Bytes) (r : TypedRec)
+    (_h : typedPath F san now b = some r) :
+    walTyped b = walGeneric b ∧ (b ≠ [] → walTyped b = .raw b) := by
+  have h := C02_write_dispatch
+  refine ⟨by simp [walTyped, walGeneric, h.2.2.1, h.2.2.2], ?_⟩
+  intro hb
+  cases b with
+  | nil => exact absurd rfl hb
+  | cons x xs => simp [walTyped, h.2.2.1]
+
+example : walTyped wDup = .raw wDup := by decide
+
 /-! ## per-class agreement (the content of `C02_hit_agrees`) -/
 
 section
